@@ -79,6 +79,31 @@ struct C20 : Prop {
 				}
 			}
 		}
+		// a configured leaf board directly beneath the interface leaves the bus after its node-table row has been read and before the read-out is
+		// complete (triggered by a later MSG_NODETAB_GETNEXT): the read-out starts over and no longer lists the board - nothing may be commanded for it
+		if (!plan.has("lost_during_features") && r.chance(150)) {
+			std::vector<const cfg::Board *> xs; for (auto &b : w.boards) if (b.present && b.addr.size() == 1 && !b.is_iface()) xs.push_back(&b);
+			if (!xs.empty()) { J tl = J::obj(); tl.set("lost", pc::jaddr(xs[r.below(xs.size())]->addr)); plan.set("lost_during_enumeration", tl); }
+		}
+		// an interface beneath the root, with configured boards beneath it, logs in while the table of ANOTHER sub-interface is read (the root's own
+		// read-out is complete, only MSG_NODE_NEW announces it): the enumeration has to start over, the boards beneath the late interface get their
+		// features and initial values like everybody else
+		else if (!plan.has("lost_during_features") && r.chance(150)) {
+			std::vector<const cfg::Board *> hubs;
+			for (auto &b : w.boards) if (b.present && b.addr.size() == 1 && b.is_iface()) { bool child = false; for (auto &c : w.boards) if (c.present && c.addr.size() == 2 && c.addr[0] == b.addr[0]) child = true; if (child) hubs.push_back(&b); }
+			if (!hubs.empty()) {
+				const cfg::Board *h = hubs[r.below(hubs.size())];
+				std::vector<uint8_t> trig;
+				for (auto &b : w.boards) if (b.present && b.addr.size() == 1 && b.is_iface() && b.addr != h->addr) trig = b.addr;
+				for (auto &x : w.unknown) if (trig.empty() && x.addr.size() == 1 && (x.uid[0] & 0x80)) trig = x.addr;
+				if (!trig.empty()) {
+					J bus = plan["bus"]; J ns = bus["nodes"]; J ns2 = J::arr();
+					for (size_t i = 0; i < ns.size(); i++) { J n = ns[i]; if (j_bytes(n["addr"]) == h->addr) n.set("present", false); ns2.push(n); }
+					bus.set("nodes", ns2); plan.set("bus", bus);
+					J hl = J::obj(); hl.set("hub", pc::jaddr(h->addr)); hl.set("on_getall_of", pc::jaddr(trig)); plan.set("hub_login_during_enum", hl);
+				}
+			}
+		}
 		J phs = J::arr();
 		{ J ph = J::obj(); ph.set("check", true); J post = J::arr(); post.push("quiesce"); ph.set("post", post); phs.push(ph); }
 		if (r.chance(400)) {
@@ -98,10 +123,32 @@ struct C20 : Prop {
 	uint64_t transcripts = 0, features_checked = 0, initials_checked = 0, absent_with_config = 0, connected_with_config = 0;
 
 	bool lost_fired = false; uint64_t lost_during_features = 0;
+	bool enum_fired = false; uint64_t lost_during_enum = 0, hub_logins = 0;
 	void attach(Engine &e) override {
 		world = cfg::from_json(e.plan["world"]); checked_from = 0; transcripts = features_checked = initials_checked = absent_with_config = connected_with_config = 0;
 		lost_fired = false; lost_during_features = 0;
 		e.bus.on_request = nullptr;
+		enum_fired = false; lost_during_enum = hub_logins = 0;
+		if (e.plan.has("lost_during_enumeration")) {
+			std::vector<uint8_t> lost = j_bytes(e.plan["lost_during_enumeration"]["lost"]);
+			e.bus.on_request = [this, &e, lost](bus::Node &n, const ref::Msg &m) {
+				if (!enum_fired && m.type == MSG_NODETAB_GETNEXT && n.addr.empty() && n.enum_active) {
+					int pos = 0, p = -1; for (int c : n.children) if (e.bus.nodes[(size_t) c].present) { pos++; if (e.bus.nodes[(size_t) c].addr == lost) p = pos; }
+					if (p > 0 && n.tab_iter > p) {      // its row has been read, more rows are still to come
+						enum_fired = true; lost_during_enum++;
+						J ev = J::obj(); ev.set("topo", "lost"); ev.set("node", pc::jaddr(lost)); e.topo_event(ev);
+					}
+				}
+				return false;
+			};
+		}
+		if (e.plan.has("hub_login_during_enum")) {
+			std::vector<uint8_t> hub = j_bytes(e.plan["hub_login_during_enum"]["hub"]), trig = j_bytes(e.plan["hub_login_during_enum"]["on_getall_of"]);
+			e.bus.on_request = [this, &e, hub, trig](bus::Node &n, const ref::Msg &m) {
+				if (!enum_fired && m.type == MSG_NODETAB_GETALL && n.addr == trig) { enum_fired = true; hub_logins++; J ev = J::obj(); ev.set("topo", "new"); ev.set("node", pc::jaddr(hub)); e.topo_event(ev); }
+				return false;
+			};
+		}
 		if (e.plan.has("lost_during_features")) {
 			std::vector<uint8_t> trig = j_bytes(e.plan["lost_during_features"]["on_feature_set_to"]), lost = j_bytes(e.plan["lost_during_features"]["lost"]);
 			e.bus.on_request = [this, &e, trig, lost](bus::Node &n, const ref::Msg &m) {
@@ -201,7 +248,7 @@ struct C20 : Prop {
 	void coverage(Engine &e, J &f) override {
 		f.set("nontrivial", absent_with_config > 0 && connected_with_config > 0);
 		f.set("shape", (long long) (pc::shape_hash(e.plan) >> 1) ^ (long long) (fnv1a(FNV_INIT, e.plan["configs"].dump().data(), e.plan["configs"].dump().size()) >> 2));
-		J pr = J::obj(); pr.set("transcripts_checked", (long long) transcripts); pr.set("features_checked", (long long) features_checked); pr.set("initial_values_checked", (long long) initials_checked); pr.set("board_lost_while_waiting_for_an_earlier_boards_features", (long long) lost_during_features);
+		J pr = J::obj(); pr.set("transcripts_checked", (long long) transcripts); pr.set("features_checked", (long long) features_checked); pr.set("initial_values_checked", (long long) initials_checked); pr.set("board_lost_while_waiting_for_an_earlier_boards_features", (long long) lost_during_features); pr.set("board_lost_after_its_table_row_was_read", (long long) lost_during_enum); pr.set("interface_with_boards_logging_in_during_the_enumeration", (long long) hub_logins);
 		pr.set("absent_boards_with_config", (long long) absent_with_config);
 		f.set("probes", pr);
 	}
